@@ -66,7 +66,7 @@ def prepare(ctx):
                      'Skeleton.v': hdr + 'Inductive eff := ELoad (n : string) | EWrite (n : string) | ERaw (n : string) | ELoop (body : list (list eff)) | ELock (mode : string) (body : list (list eff)).\n'
                                          'Definition gen_entries : list (string * list (list eff)) := [].\n'
                                          'Inductive tok := TLoad | TWrite | TRaw (n : string) | TLockB (mode : string) | TLockE | TLoopB | TLoopE.\n'
-                                         'Definition gen_flat : list (string * list (list tok)) := [].\nDefinition gen_append_prim : list (list tok) := [[TRaw "translator failed"]].\n'}
+                                         'Definition gen_flat : list (string * list (list tok)) := [].\nDefinition gen_append_prim : list (list tok) := [[TRaw "translator failed"]].\nDefinition gen_withlock_prim : list (list tok) := [[TRaw "translator failed"]].\n'}
             for name, text in stubs.items():
                 with open(os.path.join(COQ, 'gen', name), 'w') as f:
                     f.write('(* STUB: tools/gen failed: %s *)\n' % ctx.gen_error.replace('*)', '* )')[:200] + text)
@@ -162,7 +162,7 @@ def skeleton_diagnosis():
     try:
         with open(src, 'w') as f:
             f.write('From Coq Require Import List String.\nFrom ErgoBridge Require Import SkelLib.\n'
-                    'Eval vm_compute in (concat (map mutating_ok mutating_entries), concat (map readonly_ok readonly_entries), init_ok, append_prim_ok).\n')
+                    'Eval vm_compute in (concat (map mutating_ok mutating_entries), concat (map readonly_ok readonly_entries), init_ok, append_prim_ok, withlock_prim_ok).\n')
         rc, out = sh(['coqc', '-Q', 'theories', 'Ergo', '-Q', 'gen', 'ErgoGen', '-Q', 'bridge', 'ErgoBridge', src], cwd=COQ, timeout=120)
         return ' '.join(out.split())[:1500]
     except Exception as e:
